@@ -164,6 +164,15 @@ func (c *reconnectClient) Connect(ctx context.Context, clientID string, opts ...
 				errDial.Store(err) // Hold first dial error excepting context cancel.
 			}
 			select {
+			case <-ctx.Done():
+				// User cancelled; don't restart.
+				return
+			case <-c.disconnected:
+				return
+			default:
+				// A zero wait must not win against a stop request.
+			}
+			select {
 			case <-time.After(reconnWait):
 			case <-ctx.Done():
 				// User cancelled; don't restart.
